@@ -22,7 +22,7 @@ monitors to use them as an oracle.
 from math import isqrt
 
 __all__ = ['valid_nm', 'valid_xy', 'tri_row', 'noll_to_nm', 'nm_to_noll', 'ansi_to_nm', 'nm_to_ansi', 'fringe_to_nm',
-           'nm_to_fringe', 'xy_j_to_ab', 'xy_ab_to_j', 'orders_of_radial_order', 'orders_of_fringe_group',
+           'nm_to_fringe', 'xy_j_to_ab', 'xy_ab_to_j', 'orders_of_radial_order', 'orders_of_fringe_group', 'orders_of_xy_degree',
            'noll_block', 'ansi_block', 'fringe_block', 'xy_block', 'selftest']
 
 
@@ -64,7 +64,8 @@ def nm_to_noll(n, m):
     if am == 0:
         return base + 1
     # the two positions that carry |m| inside the order (written down from the rule, not from the forward map)
-    first = am - 1 if n % 2 == 0 else am - 1   # n even: |m| = 2a sits at p = 2a-1, 2a ; n odd: |m| = 2a+1 at p = 2a, 2a+1
+    # n even: |m| = 2a sits at p = 2a-1, 2a ; n odd: |m| = 2a+1 sits at p = 2a, 2a+1 ; in both cases p = |m|-1, |m|
+    first = am - 1
     for p in (first, first + 1):
         j = base + p + 1
         if (j % 2 == 0) == (m > 0):
